@@ -6,10 +6,10 @@ from props import ringlib as R
 
 ID = 'C06'
 PROP_FILE = 'Props/C06.v'
-EVAL_FILES = ['Oracle/C06Oracle.v']
+EVAL_FILES = ['Oracle/C06Oracle.v', 'Model/RingThreads.v']
 CRATES = ['c06']
 MODES = ['debug', 'release']
-IMPORTS = ('Require Import V.Base.MachineInt V.Model.LogBase V.Model.Ring V.Spec.Fifo V.Oracle.C06Oracle.')
+IMPORTS = ('Require Import V.Base.MachineInt V.Model.LogBase V.Model.Ring V.Model.RingThreads V.Spec.Fifo V.Oracle.C06Oracle.')
 RULE = ('seq: operation sequences on one ring (write lengths 0..cap/8+1, read limits {0,1,2,max}, size, next id, heartbeat, '
         'unblock, dump after every op for small rings); exhaustive sequences over {write len, read limit} for cap in {8,16,32,64} '
         '(length <= 6, stratified sample in quick) started at every 8-aligned index of the ring, plus starts at positions next to '
@@ -93,25 +93,80 @@ def generate(rng, tier):
             ops.append(rng.choice([['w', -1, rng.randrange(0, 3), 0], ['w', 1, cap // 8 + rng.randrange(1, 5), 0],
                                    ['w', rng.choice(R.CMDS), rng.randrange(0, cap // 8 + 1), 0], ['r', rng.choice([-1, 0, 1, R.INF])]]))
         cases.append(_mk(cap, 8 * rng.randrange(0, 64), ops))
+    cases += gen_conc(rng, tier)
     rng.shuffle(cases)
+    return cases
+
+
+def _conc(cap, p0, pre, limits, progs, sched, post=None, stops=None):
+    return {'kind': 'conc', 'cap': cap, 'p0': p0, 'hc0': p0, 'c0': 0, 'pre': pre, 'limits': limits, 'progs': progs,
+            'sched': sched, 'stops': stops if stops is not None else [-1] * (len(progs) + 1),
+            'post': post if post is not None else [['r', R.INF], ['r', R.INF], ['d']]}
+
+
+def gen_conc(rng, tier):
+    big = tier == 'thorough'
+    cases = []
+    nrand = 500 if not big else 20000
+    for i in range(nrand):
+        cap = rng.choice([32, 64, 64, 128])
+        nprod = rng.choice([2, 2, 3])
+        nw = [rng.randrange(1, 4) for _ in range(nprod)]
+        types = R.fresh_types(rng, sum(nw))
+        progs, k = [], 0
+        for n in nw:
+            prog = []
+            for _ in range(n):
+                prog.append([types[k], rng.choice([0, 1, 7, 8, cap // 8, rng.randrange(0, cap // 8 + 1)]), k])
+                k += 1
+            progs.append(prog)
+        limits = [rng.choice([1, 2, R.INF]) for _ in range(rng.randrange(1, 4))]
+        p0 = rng.choice([0, cap - 8, cap - 16, cap - 24, 8 * rng.randrange(0, cap // 8), 2**32 - 16])
+        pre = []
+        if rng.random() < 0.3:
+            pre = [['w', 14, rng.randrange(0, cap // 8 + 1), 99], ['r', 1]] if rng.random() < 0.5 else [['w', 14, cap // 8, 99]]
+        nthreads = nprod + 1
+        sched = [rng.randrange(0, nthreads) for _ in range(rng.choice([10, 30, 60, 120]))]
+        if rng.random() < 0.5:
+            # bursts: longer runs of one thread
+            sched = []
+            for _ in range(12):
+                sched += [rng.randrange(0, nthreads)] * rng.randrange(1, 12)
+        cases.append(_conc(cap, p0, pre, limits, progs, R.rle(sched)))
+    # all schedules with at most one pre-emption for a few fixed programs
+    fixed = [
+        (32, 8, [], [R.INF], [[[1, 0, 0]], [[2, 8 - 8, 1]]]),
+        (32, 16, [], [1, R.INF], [[[1, 4, 0], [3, 0, 2]], [[2, 1, 1]]]),
+        (64, 40, [['w', 14, 8, 99]], [2, R.INF], [[[1, 8, 0]], [[2, 3, 1], [4, 0, 3]]]),
+    ]
+    for cap, p0, pre, limits, progs in fixed if not big else fixed * 1:
+        scheds = R.one_preemption_schedules(len(progs) + 1, max_steps=40 if big else 26, every=1)
+        for s in scheds:
+            cases.append(_conc(cap, p0, pre, limits, progs, s))
     return cases
 
 
 def impl_line(c):
     if c['kind'] == 'seq':
         return R.seq_line(c)
+    if c['kind'] == 'conc':
+        return R.conc_line(c)
     raise ValueError(c)
 
 
 def model_expr(c, mode):
     if c['kind'] == 'seq':
         return 'snd (run %s %s %s)' % (R.mode_c(mode), R.seq_init(c), R.ops_coq(c['ops']))
+    if c['kind'] == 'conc':
+        return R.conc_model(c, mode)
     raise ValueError(c)
 
 
 def oracle_expr(c, mode, obs):
     if c['kind'] == 'seq':
         return 'holds_seq %s %s %s %s %s %s' % (z(c['cap']), z(c['p0']), z(c['hc0']), z(c['c0']), R.ops_coq(c['ops']), to_coq(obs))
+    if c['kind'] == 'conc':
+        return 'holds_conc %s %s %s %s %s %s' % (z(c['cap']), z(c['p0']), R.ops_coq(c['pre']), R.progs_coq(c), R.ops_coq(c['post']), to_coq(obs))
     raise ValueError(c)
 
 
